@@ -382,14 +382,14 @@ def float_monitors(chk, tier):
     import scipy.linalg
     from quantarhei.qm import LindbladForm, SystemBathInteraction, Operator
     r = cm.rng(PID + "float")
-    ncases = 30 if tier == "quick" else 360
+    ncases = 36 if tier == "quick" else 360
     for k in range(ncases):
         reset_manager()
         rs = np.random.RandomState(r.randrange(2 ** 31))
         n = int(rs.choice([2, 3, 4]))
         L = int(rs.choice([2, 4, 6]))
         nref = int(rs.choice([1, 2, 5]))
-        kind = ["lindblad_ops", "lindblad_tensor", "closed", "rwa", "reuse"][k % 5]
+        kind = ["lindblad_ops", "lindblad_tensor", "closed", "rwa", "reuse", "deph_exact"][k % 6]
         c = {"kind": "float:" + kind, "n": n, "L": L, "nref": nref, "k": k, "nref_via_keyword": k % 8 < 4}
         try:
             with contextlib.redirect_stdout(io.StringIO()):
@@ -462,6 +462,43 @@ def float_monitors(chk, tier):
                             chk.violation("float:reuse:propagator", "call %d %r on a propagator with pure dephasing used before with %r differs from a fresh "
                                           "propagator by %g (n=%d, %s form)" % (ci, kw, calls[:ci], dev, n, "operator" if form_ops else "tensor"), "monitor",
                                           dict(c, calls=calls))
+                            break
+                elif kind == "deph_exact":
+                    # diagonal Hamiltonian, one projector as Lindblad operator, pure dephasing: everything commutes, so the exact solution
+                    # is known in closed form and the only error is the truncation of the short-time expansion - for EVERY refinement
+                    # (the dephasing accumulated over a step must not depend on Nref), both forms, both dephasing types
+                    from quantarhei.qm.liouvillespace.puredephasing import PureDephasing
+                    E = rs.randn(n) * 0.05
+                    Hd = np.diag(E)
+                    p = int(rs.randint(n))
+                    Kp = np.zeros((n, n))
+                    Kp[p, p] = 1.0
+                    rate = float(rs.rand() * 0.05)
+                    g = np.abs(rs.randn(n, n)) * 0.03
+                    g = g + g.T
+                    np.fill_diagonal(g, 0.0)
+                    dtype = str(rs.choice(["Lorentzian", "Gaussian"]))
+                    form_ops = bool(rs.rand() < 0.5)
+                    ham = qr.Hamiltonian(data=Hd.copy())
+                    sbi = SystemBathInteraction(sys_operators=[Operator(data=Kp.copy())], rates=[rate])
+                    LF = LindbladForm(ham, sbi, as_operators=form_ops)
+                    prop = qr.ReducedDensityMatrixPropagator(ta, ham, RTensor=LF, PDeph=PureDephasing(drates=g.copy(), dtype=dtype))
+                    out = np.array(propagate_dm(prop, qr.ReducedDensityMatrix(data=rho0.copy()), L, nref, k % 8 < 4).data)
+                    G = liouvillian(Hd, gksl_tensor([Kp], [rate]))
+                    for i in range(out.shape[0]):
+                        t = ta.data[i]
+                        ex = np.zeros((n, n), dtype=complex)
+                        for a in range(n):
+                            for b_ in range(n):
+                                lind = 0.0 if a == b_ else 0.5 * rate * ((a == p) + (b_ == p))
+                                dec = g[a, b_] * t if dtype == "Lorentzian" else g[a, b_] * t * t / 2.0
+                                ex[a, b_] = rho0[a, b_] * np.exp(-1j * (E[a] - E[b_]) * t - lind * t - dec)
+                        bb = bound(G, dtref, L, i * nref, float(np.linalg.norm(rho0)))
+                        err = float(np.linalg.norm(out[i] - ex))
+                        if err > bb:
+                            chk.violation("float:dephasing_exact:" + dtype, "diagonal Hamiltonian, projector Lindblad operator and %s pure dephasing (%s form): "
+                                          "stored state %d differs from the closed-form solution by %g > truncation bound %g (n=%d L=%d Nref=%d)"
+                                          % (dtype, "operator" if form_ops else "tensor", i, err, bb, n, L, nref), "monitor", c)
                             break
                 elif kind == "closed":
                     ham = qr.Hamiltonian(data=Hm.copy())
